@@ -144,6 +144,7 @@ def augop(interp, st, op, cur, rhs):
         items = interp.concrete_items(st, rhs)
         if items is None:
             raise Unsupported('list += symbolic')
+        st.mutating(cur)
         st.store[cur.id].extend(items)
         yield st, INPLACE_DONE
         return
@@ -360,6 +361,7 @@ def to_ty(interp, st, v, ty):
         c = st.store[v.id]
         if isinstance(c, SV):       # forwarding pointer
             return sym.coerce(c, ty)
+        st.mutating(v)
         if not isinstance(ty, Ref):
             raise Unsupported(f'cannot intern {v.kind} as {ty}')
         cls = ty.cls
@@ -635,10 +637,12 @@ def setitem(interp, st, o, idx, v):
     if isinstance(o, PyRef) and o.kind == 'dict':
         if not isinstance(idx, (str, int, bytes)):
             raise Unsupported('symbolic key store into concrete dict')
+        st.mutating(o)
         st.store[o.id][idx] = v
         yield st, None
         return
     if isinstance(o, PyRef) and o.kind == 'list' and isinstance(idx, int):
+        st.mutating(o)
         st.store[o.id][idx] = v
         yield st, None
         return
@@ -726,6 +730,7 @@ def delete(interp, st, target):
                             yield s3, ('raise', Exc('KeyError', (idx,)))
                 elif isinstance(o, PyRef) and o.kind == 'dict' and isinstance(idx, (str, int)):
                     if idx in s2.store[o.id]:
+                        s2.mutating(o)
                         del s2.store[o.id][idx]
                         yield s2, ('normal',)
                     else:
